@@ -266,3 +266,42 @@ def AND(*cs) -> Cond:
 
 def OR(*cs) -> Cond:
     return Cond("or", *cs)
+
+
+# ---------------------------------------------------------------------------------------------------------------------
+def canon_store(s: Store):
+    """A store with its loop variables renamed L0, L1, ... (outer -> inner): (idx, op, value, loops [(lo, hi, step)], guards) as strings/forms.
+    Makes update-shape rules independent of the names of loop variables."""
+    ren = {l.var: f"L{k}" for k, l in enumerate(s.loops)}
+
+    def r(pv):
+        if isinstance(pv, Poly):
+            return pv.subst(lambda at: Poly.sym(ren[at[1]]) if (at[0] == "s" and at[1] in ren) else None)
+        return pv
+    val = s.value
+    if isinstance(val, Ref):
+        val = val.poly()
+    if isinstance(val, tuple):
+        val = tuple(r(x.poly() if isinstance(x, Ref) else x) for x in val)
+    else:
+        val = r(val)
+    loops = tuple((repr(r(l.lo)), repr(r(l.hi)), repr(r(l.step))) for l in s.loops)
+    guards = tuple(sorted(str(norm_cond(_rename_cond(c, r))) for c in real_guards(s.guards)))
+    return (tuple(repr(r(x)) for x in s.idx), s.op, repr(val) if not isinstance(val, tuple) else tuple(map(repr, val)), loops, guards)
+
+
+def _rename_cond(c: Cond, r):
+    if c.kind == "cmp":
+        a, op, b = c.args
+        return Cond("cmp", r(a) if isinstance(a, Poly) else a, op, r(b) if isinstance(b, Poly) else b)
+    if c.kind in ("and", "or", "not"):
+        return Cond(c.kind, *[_rename_cond(x, r) if isinstance(x, Cond) else x for x in c.args])
+    if c.kind == "truth":
+        return Cond("truth", r(c.args[0]) if isinstance(c.args[0], Poly) else c.args[0])
+    return c
+
+
+def ref_store(idx, op, value, loops, guards=()):
+    """reference counterpart of canon_store, written with L0, L1, ... as loop atoms"""
+    return (tuple(repr(x) for x in idx), op, repr(value) if not isinstance(value, tuple) else tuple(map(repr, value)),
+            tuple((repr(a), repr(b), repr(c)) for a, b, c in loops), tuple(sorted(str(norm_cond(g)) for g in guards)))
